@@ -124,8 +124,10 @@ pub fn restore_file(path: &Path) -> Value {
                 jobs.sort_by_key(|j| j["id"].as_u64());
                 let mut queues: Vec<u32> = o.queues.iter().map(|q| q.0).collect();
                 queues.sort_unstable();
+                // the id the next queue really gets once the surviving queues have been re-created (not just the restorer's counter)
+                let qc_live = crate::autoalloc::live_next_queue_id(server.server_ref(), o.queue_id_counter, &queues);
                 json!({"ok": true, "err": "", "pan": 0, "ploc": "", "jc": o.job_id_counter, "wc": o.worker_id_counter.as_num(),
-                       "qc": o.queue_id_counter, "uid": o.server_uid, "trunc": o.truncate_size.map(|x| x as i64).unwrap_or(-1),
+                       "qc": qc_live.min(o.queue_id_counter), "qc_restorer": o.queue_id_counter, "uid": o.server_uid, "trunc": o.truncate_size.map(|x| x as i64).unwrap_or(-1),
                        "jobs": jobs, "core": core, "queues": queues, "add_err": add_err})
             }
         }
